@@ -10,17 +10,28 @@ B85 = PKG + '.bip85.BIP85DeterministicEntropy'
 BIPKEY = T.const(b'bip-entropy-from-k')
 
 
-def paper_wallet(kind, testnet):
-    """Symbolic PaperWallet: kind 'prv' (full) or 'pub' (watch-only)."""
+_PROGRAM = [None]
+
+
+def paper_wallet(kind, testnet, p=None, be='ecdsa'):
+    """Symbolic PaperWallet: kind 'prv' (full) or 'pub' (watch-only).  Built by the class's own constructor (whatever
+    fields it has today), then given a symbolic mnemonic and passphrase the way the from_* constructors do."""
+    p = p or _PROGRAM[0]
     if kind == 'prv':
         m, k = master_prv(testnet=testnet)
-        bip85 = T.obj(B85, dict(master_node=m, testnet=testnet))
         secrets = [k]
     else:
         m, P = pub_node(depth=T.const(0), index=T.const(0), parent=T.NONE, testnet=testnet)
-        bip85 = T.NONE
         secrets = []
     mn, pw = S('mnemonic', type='str'), S('password', type='str')
+    if p is not None:
+        w = mk_wallet(p, be, m, testnet, cls=PW)
+        fields = T.obj_fields(w)
+        if 'mnemonic' in fields and 'password' in fields:
+            w = T.obj_set(T.obj_set(w, 'mnemonic', mn), 'password', pw)
+            return w, secrets + [mn, pw]
+        raise AnalysisError('C15.WALLET', 'PaperWallet objects no longer carry mnemonic/password fields: %s' % sorted(fields))
+    bip85 = T.obj(B85, dict(master_node=m, testnet=testnet)) if kind == 'prv' else T.NONE
     w = T.obj(PW, dict(master=m, testnet=testnet, mnemonic=mn, password=pw, bip85=bip85))
     return w, secrets + [mn, pw]
 
@@ -57,16 +68,30 @@ def flatten(t, path=''):
         yield path, t
 
 
-def generate_shape(p, be, kind, testnet):
+def generate_variants(p):
+    """Keyword settings under which generate() must be filtered correctly: its defaults, and every optional parameter
+    beyond (account, interval) switched away from its default (booleans flipped, anything else symbolic)."""
+    fi = p.get_function('paper_wallet.PaperWallet.generate')
+    out = [('', {})]
+    for name in fi.params[3:]:
+        d = fi.defaults.get(name)
+        if isinstance(d, ast.Constant) and isinstance(d.value, bool):
+            out.append((' %s=%s' % (name, not d.value), {name: T.const(not d.value)}))
+        else:
+            out.append((' %s=<any>' % name, {name: S('opt_' + name)}))
+    return out
+
+
+def generate_shape(p, be, kind, testnet, extra=None):
     ev = Evaluator(p, be)
     ev.step_budget = 3000000
-    w, secrets = paper_wallet(kind, testnet)
+    w, secrets = paper_wallet(kind, testnet, p, be)
     acct, iv = S('account', type='int'), S('interval', type='list')
     facts = Facts().add(T.not_(T.lt(acct, T.const(0)))).add(T.lt(acct, T.const(2 ** 31)))
     if kind == 'pub':
         # a watch-only wallet cannot derive the hardened account path: generate() refuses; use the row/keys builders
         return ev, w, secrets, None, facts
-    v, f = ev.call_function('paper_wallet.PaperWallet.generate', [w, acct, iv], facts=facts)
+    v, f = ev.call_function('paper_wallet.PaperWallet.generate', [w, acct, iv], dict(extra or {}), facts=facts)
     nl = distinct_normal_leaves(v)
     if len(nl) != 1 or T.tag(nl[0]) != 'dict':
         raise AnalysisError('C15.SHAPE', 'generate() does not evaluate to one dictionary-shaped value (%d normal exits)' % len(nl))
@@ -84,11 +109,11 @@ def run(ctx):
         'unfiltered output. In main(), the data reaching the output sinks under --paranoia must be the filtered value.')
     ctx.not_decided = ['JSON rendering of the filtered structure (json.dumps is trusted)']
     fpm = p.get_function('__main__.paranoia_mode')
-    for be in BACKENDS:
-        for tn in (False, True):
-            cfg = '%s/%s' % (be, 'testnet' if tn else 'mainnet')
+    for be, tn, (vname, extra) in [(b_, t_, v_) for b_ in BACKENDS for t_ in (False, True) for v_ in generate_variants(p)]:
+        if True:
+            cfg = '%s/%s%s' % (be, 'testnet' if tn else 'mainnet', vname)
             with ctx.obligation('C15.FILTER', '__main__.paranoia_mode', cfg, fpm.where) as ob:
-                ev, w, secrets, full, facts = generate_shape(p, be, 'prv', T.const(tn))
+                ev, w, secrets, full, facts = generate_shape(p, be, 'prv', T.const(tn), extra)
                 full_leaves = dict(flatten(full))
                 sec_paths = sorted(pth for pth, t in full_leaves.items() if is_secret(t, secrets))
                 pub_paths = sorted(pth for pth, t in full_leaves.items() if not is_secret(t, secrets))
